@@ -55,6 +55,12 @@ func c17Destinations() []string {
 		ch := string(r)
 		prefixes = append(prefixes, "/"+ch+"/", "/"+ch+"\\", "/"+ch, ch+"//", "/"+ch+ch+"/", "/x"+ch+"/")
 	}
+	// absolute URLs that begin with this server's own origin text but name another authority
+	for _, sch := range []string{"https://", "http://", "//", "HTTPS://", "https:/", "https:\\\\"} {
+		for _, tail := range []string{".", "@", ":443@", ".:443@", "%2e", "%40", "-", "x", ":x@", "\\@", "#@", "?@", "/../../"} {
+			prefixes = append(prefixes, sch+vfHost+tail)
+		}
+	}
 	prefixes = append(prefixes, "/\x7f/", "/\x7f", "http:", "https:/", "javascript:", "//", "HtTp://", "https://", "https:\\\\", "http:/\\", "/%09/", "/%0a/", "/%5c", "/%2f%2f", "\\\\", "/\\/", "/./", "/../", "/.//", "/;/")
 	for _, p := range prefixes {
 		for _, b := range c17Bodies {
@@ -300,7 +306,7 @@ func init() {
 	vfRegister(&vfeng.Check{
 		ID:    "C17",
 		Level: "model_checking",
-		Rule:  "exhaustive destination grammar (every prefix of length <=3 over 14 symbols, every C0 control and 9 non-printable Unicode runes at positions 0-2, scheme-like prefixes) x 4 bodies, plus every prefix of length <=2 x 4 bodies x 10 tails that force URL re-serialisation (invalid path characters, broken escapes) x every driven redirect site (login form/query/GET, TOTP, bootstrap OTP, VIP OTP, federated callback) on the real handlers' success paths; Location (as net/http puts it on the wire; conformance-checked through a real http.Server) resolved with WHATWG rules must stay on keymasterd's origin; class = (site, outcome, destination class)",
+		Rule:  "exhaustive destination grammar (every prefix of length <=3 over 14 symbols, every C0 control and 9 non-printable Unicode runes at positions 0-2, scheme-like prefixes, absolute URLs starting with this server's own origin text followed by 13 authority-changing tails) x 4 bodies, plus every prefix of length <=2 x 4 bodies x 10 tails that force URL re-serialisation (invalid path characters, broken escapes) x every driven redirect site (login form/query/GET, TOTP, bootstrap OTP, VIP OTP, federated callback) on the real handlers' success paths; Location (as net/http puts it on the wire; conformance-checked through a real http.Server) resolved with WHATWG rules must stay on keymasterd's origin; class = (site, outcome, destination class)",
 		Assumptions: []string{"browser URL resolution is modelled by the WHATWG subset in whatwg.go", "net/http's header sanitisation (CR/LF to space, trim) is applied to recorder output and validated against a real http.Server on loopback for a sample of points and for every violation"},
 		Bounds: func(tier string) map[string]interface{} {
 			return map[string]interface{}{"destinations": len(c17Destinations()), "sites": len(c17Sites())}
